@@ -107,6 +107,26 @@ def run(check, tier, seed, scratch):
     for op in ('merge', 'embed', 'mask', 'forwards'):
         gens.append(alggen.cex_events(cu, op, [c for o, c in cex if o == op], tag='modelcex-' + op))
     run_trace_leg(check, scratch, 'robustness', alggen.chain(*gens), WANT)
+    # retrieval level: "signature retrieval turns such failures into its fallback".  Wrappers whose WRITTEN call the callee cannot take
+    # (too many positionals, an unknown keyword, a parameter passed twice) make forwards / mask raise inside discovery.
+    from . import c04
+
+    def unhonourable(shard, nshards):
+        r2 = random.Random(seed + 21)
+        UI = [c04.rename(ps, {'a': 'x', 'b': 'y'}) for ps in U2]
+        for k in range(2500 if quick else 60000):
+            a, b = r2.randrange(len(UO)), r2.randrange(len(UI))
+            inner = UI[b]
+            pool = [p['n'] for p in inner if p['k'] in ('po', 'pok', 'kwo')] + [alggen.FOREIGN]
+            fl = flags(n=r2.choice([1, 2, 3, 3]), names=r2.sample(pool, r2.choice([0, 1, 1, 2]) if len(pool) >= 2 else 0), uva=r2.random() < .8, uvk=r2.random() < .8)
+            placement = ['auto', 'auto_closure', 'auto_method', 'auto_attr'][k % 4]
+            if k % nshards == shard:
+                yield c04.prog_event('unhonourable/%d-%s' % (k, placement), UO[a], inner, fl, placement)
+
+    def classify_retrieval(tid, clause, case):
+        return 'C15_RetrievalDidNotFallBack' if clause == 'C07_RetrievalRaised' else 'IGNORE'
+    run_trace_leg(check, scratch, 'retrieval-fallback', unhonourable, None, module='Trace_Exec', describe=c04.describe, classify=classify_retrieval)
+    check.failures = [f for f in check.failures if f['key'] != 'IGNORE']
     check.cov['exhaustive'] = True
     check.cov['rule'] = ('all merge pairs and all embed pairs (default flags; other flag pairs sampled in quick) of the 220-signature universe, '
                          'seeded merge/embed triples, mask over every (n<=len+2, names<=2 incl. foreign and duplicate, hide flags sampled), '
